@@ -101,6 +101,17 @@ def make_setup(case, rng):
     if loss in ("dqn", "nature_dqn", "ddqn", "ddqn_per"):
         q, qt = parts.mlp(rng, d, nA, scale=sc), parts.mlp(rng, d, nA, scale=sc)
         inp["act"] = rng.integers(0, nA, size=N).astype(np.int32)
+        tied = nA >= 2 and rng.random() < 0.35
+        if tied:
+            # two actions whose online values coincide exactly everywhere (equal
+            # output columns); the target network values them differently
+            k_ = np.array(q.output_layer.kernel.value)
+            b_ = np.array(q.output_layer.bias.value)
+            k_[:, 1], b_[1] = k_[:, 0], b_[0]
+            k_[:, 0] += 0.0
+            q.output_layer.kernel.value = jnp.asarray(k_)
+            q.output_layer.bias.value = jnp.asarray(b_)
+            S.tied_actions = True
         if loss == "ddqn_per":
             inp["w"] = rng.uniform(0.1, 1.0, size=N).astype(np.float32)
             S.row_keys.append("w")
@@ -136,7 +147,15 @@ def make_setup(case, rng):
             elif loss == "nature_dqn":
                 boot = qtn.max(1)
             else:
-                boot = qtn[np.arange(N), qn.argmax(1)]
+                sel = qn.argmax(1)
+                if getattr(S, "tie_choice", None) is not None:
+                    # another maximiser of the online values (equally valid)
+                    is_max = qn == qn.max(1, keepdims=True)
+                    for b_ in range(N):
+                        alts = np.flatnonzero(is_max[b_])
+                        sel[b_] = alts[(S.tie_choice >> b_) % len(alts)] \
+                            if len(alts) > 1 and (S.tie_choice >> b_) & 1 else sel[b_]
+                boot = qtn[np.arange(N), sel]
             y = f64(i["rew"]) + (1 - i["term"]) * g * boot
             if loss == "ddqn_per":
                 td = np.abs(pred - y)
@@ -498,6 +517,19 @@ def run_case(case):
     val, aux = out
     rv, raux = S.ref(S.inp)
     res.see("reference_values_checked")
+    if getattr(S, "tied_actions", False) and loss in ("ddqn", "ddqn_per") and \
+            not np.isclose(float(val), rv, rtol=2e-4, atol=1e-6 * (1 + abs(rv))):
+        # the selection may break ties differently: any maximiser is a valid
+        # double-Q selection; try every per-row alternative
+        for choice in range(1, 1 << N):
+            S.tie_choice = choice
+            rv2, raux2 = S.ref(S.inp)
+            if np.isclose(float(val), rv2, rtol=2e-4, atol=1e-6 * (1 + abs(rv2))):
+                rv, raux = rv2, raux2
+                break
+        S.tie_choice = None
+    if getattr(S, "tied_actions", False):
+        res.see("cases_with_tied_greedy_actions")
     if not np.isclose(float(val), rv, rtol=2e-4, atol=1e-6 * (1 + abs(rv))):
         res.violation(f"C03/{loss}/value",
                       f"loss {float(val)!r}, documented target/regression gives "
